@@ -408,6 +408,9 @@ def sqrt(x):
             n, d = v.numerator, v.denominator
             if isqrt(n) ** 2 == n and isqrt(d) ** 2 == d:
                 return C(Fraction(isqrt(n), isqrt(d)))
+    if not x.is_poly():
+        # sqrt(N/D) = sqrt(N)/sqrt(D) (positive radicands): keeps every radicand a polynomial, so that sqrt(P)^2 -> P stays confluent
+        return sqrt(Rat(x.num)) / sqrt(Rat(x.den))
     return fn('sqrt', x)
 
 
